@@ -286,13 +286,13 @@ def run_case(case):
     lay = build(rnd, case["lay"])
     sim = make_sim(lay)
     ev = []
-    sim.on_write = lambda u, d: ev.append(dict(a="Cmd", s=0, u=u, d=d))
-    sim.on_sel = lambda sec: ev.append(dict(a="Cmd", s=1, u=sec, d=[]))
-    sim.on_fault = lambda kind, at: ev.append(dict(a="Fault", kind=kind, at=at))
     tag = activate(sim)
     nd = tag.ndef
     if nd is None:
         raise HarnessError("layout not recognised as NDEF by nfcpy: %r" % case)
+    sim.on_write = lambda u, d: ev.append(dict(a="Cmd", s=0, u=u, d=d))       # after the initial read of the tag
+    sim.on_sel = lambda sec: ev.append(dict(a="Cmd", s=1, u=sec, d=[]))
+    sim.on_fault = lambda kind, at: ev.append(dict(a="Fault", kind=kind, at=at))
     skipn = len([a for a in nd._skip_bytes if a < len(sim.mem)])
     base = dict(off=nd._ndef_tlv_offset, cap=nd.capacity, nskip=skipn)
     retries = case.get("retry", 0)
@@ -744,8 +744,9 @@ def cases_c03(seed, quick):
                          cuts="none", all_kinds=not quick)
     cases += fault_cases("ms.fa5", dict(lay=ms, lseed=mseed, op="format", wipe=0xA5), quick, rnd, retry=0,
                          cuts="none", only=("ss1", "ss2") if quick else ("read", "write", "ss1", "ss2"))
+    big = t2_desc(0xFE, 1, (), 1100, "rnd", extra=32)          # three sectors, old message already in sector 1
+    cases.append(dict(id="ms3.w1500", lay=big, lseed=mseed + 1, op="write", n=1500, mseed=seed, cut=None))
     if not quick:
-        big = t2_desc(0xFE, 1, (), 1100, "rnd", extra=32)      # three sectors, old message already in sector 1
         cases += fault_cases("ms3.w1500", dict(lay=big, lseed=mseed + 1, op="write", n=1500, mseed=seed), quick, rnd,
                              retry=0, cuts="none", only=("ss1", "ss2"))
     return cases
